@@ -333,7 +333,8 @@ func intMul(a, b Int) Object {
 		absB = -b
 	}
 	// A crude but effective test!
-	if absA <= sqrtIntMax && absB <= sqrtIntMax {
+	// (absA or absB is negative only for IntMin, whose negation overflows)
+	if 0 <= absA && absA <= sqrtIntMax && 0 <= absB && absB <= sqrtIntMax {
 		return Int(a * b)
 	}
 	aBig := big.NewInt(int64(a))
